@@ -199,6 +199,16 @@ func (this *Hnsw) Remove(id uuid.UUID) error {
 			closestNeighbor = this.topVertex()
 		}
 		atomic.CompareAndSwapPointer(&this.entrypoint, currEntrypoint, unsafe.Pointer(closestNeighbor))
+
+		// A concurrent Remove of the chosen vertex that looked at the entrypoint before
+		// the swap does not hand it over itself: do not leave a removed vertex behind.
+		for {
+			entrypoint := (*hnswVertex)(atomic.LoadPointer(&this.entrypoint))
+			if entrypoint == nil || !entrypoint.isDeleted() {
+				break
+			}
+			atomic.CompareAndSwapPointer(&this.entrypoint, unsafe.Pointer(entrypoint), unsafe.Pointer(this.topVertex()))
+		}
 	}
 
 	for l := vertex.level; l >= 0; l-- {
@@ -253,11 +263,19 @@ func (this *Hnsw) Search(ctx context.Context, query math.Vector, k uint) (Search
 
 	n := math.MinInt(int(k), neighbors.Len())
 	result := make(SearchResult, n)
+	var removed []int
 	for i := n - 1; i >= 0; i-- {
 		item := neighbors.Pop()
 		result[i].Id = item.Value().(*hnswVertex).Id()
 		result[i].Metadata = item.Value().(*hnswVertex).Metadata()
 		result[i].Score = item.Priority()
+		if item.Value().(*hnswVertex).isDeleted() {
+			// The traversal takes its entrypoint as a result whatever its removal mark
+			removed = append(removed, i)
+		}
+	}
+	for _, i := range removed {
+		result = append(result[:i], result[i+1:]...)
 	}
 
 	return result, nil
